@@ -81,7 +81,7 @@ func (v *jv) size() int {
 }
 
 var namePool = []string{"a", "b", "c", "d", "foo", "bar", "a/b", "m~n", "~0", "~1", "0", "1", "2", "-", "01",
-	"<k&>", "k ", "é", "😀", "x y", "q\"t", "b\\s", "", "-1", "10", "rate%d", "%v", "100% sure", "%w", "%", "\foo", "b\bk"}
+	"<k&>", "k ", "é", "😀", "x y", "q\"t", "b\\s", "", "-1", "10", "rate%d", "%v", "100% sure", "%w", "%", "\foo", "b\bk", "c\x01d", "\x7fdel", "v\vt", "\U000e0001tag", "\xe2\x80bad", "\x1b"}
 var plainNames = []string{"a", "b", "c", "d", "e", "foo", "bar", "baz", "k1", "k2", "p%s"}
 var numPool = []string{"0", "-0", "1", "2", "3", "1.0", "1e400", "1E+2", "12345678901234567890123", "-1.5e-3", "10",
 	"100", "2.50", "0.1", "-7", "1e2", "100.0", "0.10"}
